@@ -424,6 +424,7 @@ def havoc(ex, fr, modifies, tag, base_alloc=None, written=None, collect=False, l
     esc_alloc = base_alloc if base_alloc is not None else old_alloc
     new_alloc = ex.fresh(f"ALLOC_{tag}", z3.ArraySort(REF, BOOL))
     o = z3.Const(f"o?{next(ex.cnt)}", REF)
+    # both directions trigger: intermediate versions are partly store equations, which E-matching does not walk upwards
     ex.assume(z3.ForAll([o], z3.Implies(old_alloc[o], new_alloc[o]), patterns=[old_alloc[o], new_alloc[o]]))
     ex.alloc = new_alloc
     lconds = mod_conditions(ex, fr, local_frame) if local_frame is not None else None
